@@ -35,6 +35,7 @@ PROPS = {
     "C12": ("p_c12", "Nsl.Props.C12", [], ["Nsl/Model/Names.lean", "Nsl/Proofs/Names.lean", "Nsl/Proofs/NamesBinding.lean", "Nsl/Proofs/NamesStatic.lean", "Nsl/Props/C12.lean"]),
     "C13": ("p_c13", "Nsl.Props.C13", [], ["Nsl/Model/Static.lean", "Nsl/Proofs/Static.lean", "Nsl/Props/C13.lean"]),
     "C14": ("p_c14", "Nsl.Props.C14", [], ["Nsl/Model/WF.lean", "Nsl/Proofs/WF.lean", "Nsl/Props/C14.lean", "Nsl/Model/IR.lean"]),
+    "C16": ("p_c16", "Nsl.Props.C16", [], ["Nsl/Model/Link.lean", "Nsl/Proofs/Link.lean", "Nsl/Props/C16.lean"]),
     "C19": ("p_c19", "Nsl.Props.C19", [], ["Nsl/Model/Leb.lean", "Nsl/Proofs/Leb.lean", "Nsl/Props/C19.lean"]),
     "C20": ("p_c20", "Nsl.Props.C20", ["Nsl.Props.GenC20"], ["Nsl/Model/SrcMap.lean", "Nsl/Proofs/SrcMap.lean", "Nsl/Props/C20.lean", "Nsl/Props/GenC20.lean"]),
 }
